@@ -30,6 +30,14 @@ TRUSTED = [
     "index_offsets, __iter__, _eval_loop, _training_loop incl. its batch-size adjustment branches, batch sampler, "
     "concat-dataset lookup, collator dispatch); tied to /repo by this run's correspondence evaluation",
     "harness/interleaved.py: recording samplers, event log, case rendering",
+    "recording samplers yield their indices as Python ints, numpy int64 scalars or 0-d torch tensor VIEWS of an index "
+    "tensor the sampler object keeps and re-uses on every iteration; yielded values are read (int(idx)) at the moment "
+    "they are yielded, the kept tensors are compared with their initial content after the run; the Coq model sees "
+    "integers only",
+    "samplers drawing lazily from ONE shared draw source (main + side samplers, a value is taken at every next()): "
+    "the independent Python spec consumes the source in stream order; for the Coq model the per-iteration orders "
+    "are derived from that spec run (the model takes every sampler iteration as a given list), so the Coq "
+    "correspondence of these cases rests on the Python spec's assignment of draws",
     "side samplers may yield another order on every iteration (modelled: the k-th iteration of a sampler object is an "
     "arbitrary list of len(sampler) indices); main and side samplers yield exactly len(sampler) valid indices per "
     "iteration (the property's domain)",
@@ -127,6 +135,7 @@ def main_iter(case, e):
     """what the main sampler object yields when it is iterated while holding epoch e (None = it was never told
     an epoch)"""
     n, ds = case["N"], case["dsN"]
+    assert case.get("main_kind") != "drawn", "a lazily drawing main sampler has no order of its own"
     if case.get("main_kind") == "kd":
         return kd_order(case["kd"], ds, e)
     if case.get("main_kind") == "torch":
@@ -158,6 +167,25 @@ def side_iter(sc, p):
     l = list(sc["idx"])
     r.shuffle(l)
     return l
+
+
+def side_positions(sc, p):
+    """side_iter as positions into sc['idx'] (random.shuffle permutes positions, whatever the values are)"""
+    pos = list(range(len(sc["idx"])))
+    if sc.get("shuffle") is not None:
+        random.Random(sc["shuffle"] * 104729 + p).shuffle(pos)
+    return pos
+
+
+def as_repr(kind, values, kept=None, positions=None):
+    """the indices `values` in the representation `kind`; 'tensor': 0-d views kept[positions[k]] of the tensor the
+    sampler object keeps (positions default to the values themselves)"""
+    if kind == "np":
+        import numpy as np
+        return [np.int64(v) for v in values]
+    if kind == "tensor":
+        return [kept[q] for q in (values if positions is None else positions)]
+    return list(values)
 
 
 def geometry(case):
@@ -330,6 +358,22 @@ def add_flavours(rng, case):
         case["pre_epoch"] = case["pre_epoch"] or 0
     for sc in case["sides"]:
         sc["eager"] = rng.random() < 0.4
+    add_reprs(rng, case)
+
+
+REPRS = ("int", "np", "tensor")
+
+
+def add_reprs(rng, case):
+    """the REPRESENTATION of the indices the recording samplers yield: Python ints, numpy integer scalars, or 0-d
+    torch tensors that are VIEWS into an index tensor the sampler object keeps and re-uses on every iteration
+    (`iter(self.indices)` over a fixed tensor).  The scheduler may compute with what it is handed, it must not
+    change it."""
+    if case.get("main_kind") in ("lazy", "eager"):
+        case["main_repr"] = rng.choice(["int", "int", "np", "tensor"])
+    for sc in case["sides"]:
+        if sc.get("kd") is None:
+            sc["repr"] = rng.choice(["int", "int", "np", "tensor", "tensor"])
 
 
 def gen_other(rng, case):
@@ -442,6 +486,109 @@ def gen_bounded(rng, **kw):
         if expected_events(c) <= GEN_EVENTS:
             return c
     return gen_case(rng)
+
+
+_DRAWS = {}
+
+
+def draw_value(seed, t):
+    """the t-th value of the recorded draw source `seed`"""
+    l = _DRAWS.get(seed)
+    if l is None:
+        if len(_DRAWS) > 64:
+            _DRAWS.clear()
+        l = _DRAWS[seed] = [random.Random(seed * 8191 + 17), []]
+    while len(l[1]) <= t:
+        l[1].append(l[0].randrange(1 << 20))
+    return l[1][t]
+
+
+class _Source:
+    """ONE draw source shared by the main sampler and some side samplers (a torch.Generator handed to several
+    RandomSampler(replacement=True) objects): every next() of such a sampler takes the source's next value at that
+    moment, so the order in which the scheduler advances the samplers decides who gets which value"""
+
+    def __init__(self, seed):
+        self.seed, self.t = seed, 0
+
+    def next(self):
+        self.t += 1
+        return draw_value(self.seed, self.t - 1)
+
+
+def gen_drawn_case(rng):
+    """a main sampler that draws every index LAZILY (at next()) from a draw source it shares with 1-2 side samplers
+    that are due inside the epoch: main and side draws interleave in stream order"""
+    for _ in range(100):
+        c = gen_bounded(rng)
+        n = c["N"]
+        if n < 2 or c["budget"][1] == 0 or c.get("kd") is not None or not c["sides"]:
+            continue
+        c["B"] = b = rng.choice([1, 1, 2, max(1, n // 3), max(1, n // 2)])
+        c["D"] = None
+        c["start"] = None
+        spe, upe = geometry(c)
+        kind = rng.choice(["epochs", "updates", "samples"])
+        e = rng.choice([1, 2, 3])
+        c["budget"] = [kind, {"epochs": e, "updates": max(1, upe * e - rng.choice([0, 0, 1, upe // 2])),
+                              "samples": max(1, spe * e - rng.choice([0, 0, 1, b, spe // 2]))}[kind]]
+        c["main_kind"], c["main_repr"] = "drawn", "int"
+        c.pop("main_decoy", None)
+        c["drawn"] = {"seed": rng.randint(0, 9999)}
+        k = 0
+        for ci, sc in enumerate(c["sides"]):
+            if (sc.get("kd") is not None or sc.get("share") is not None or (k >= 1 and rng.random() < 0.5)
+                    or any(o.get("share") == ci for o in c["sides"])):
+                continue
+            ln = max(1, len(sc["idx"]))
+            sc.update({"drawn": True, "shuffle": None, "eager": False, "repr": "int", "idx": [0] * ln,
+                       "dslen": max(sc["dslen"], 1)})
+            # due inside the epoch
+            if rng.random() < 0.8:
+                sc["enu"] = rng.choice([1, 1, 2, 3])
+            k += 1
+        if k and expected_events(c) <= 3000:
+            return c
+    return c
+
+
+def gen_many_configs(rng):
+    """an evaluation SUITE: 9-14 configs over tiny datasets with different intervals, so that after most updates only
+    a few configs - far apart in the config list - are due (the passes still have to run in config order)"""
+    for _ in range(50):
+        n = rng.choice([2, 3, 4, 5, 6, 8])
+        b = rng.choice([1, 1, 2, max(1, n // 2)])
+        drop_last = rng.random() < 0.5
+        case = {"N": n, "dsN": n + rng.choice([0, 0, 2]), "B": b, "drop_last": drop_last, "D": None,
+                "perm_seed": rng.choice([None, rng.randint(0, 999)])}
+        spe, upe = geometry(case)
+        epochs = rng.choice([2, 3, 4, 6])
+        kind = rng.choice(["epochs", "updates", "samples"])
+        case["budget"] = [kind, {"epochs": epochs, "updates": max(1, upe * epochs - rng.choice([0, 0, 1])),
+                                 "samples": max(1, spe * epochs - rng.choice([0, 0, 1]))}[kind]]
+        sides = []
+        for _i in range(rng.randint(9, 14)):
+            ln = rng.choice([1, 1, 1, 2, 2, 3, 0])
+            dsl = ln + rng.choice([0, 0, 1])
+            sc = {"ene": None, "enu": None, "ens": None, "bs": rng.choice([None, None, 1, 2]), "dslen": dsl,
+                  "idx": list(range(ln)) if rng.random() < 0.7 else [rng.randrange(dsl) for _ in range(ln)],
+                  "shuffle": rng.randint(0, 999) if (ln >= 2 and rng.random() < 0.3) else None}
+            r = rng.random()
+            if r < 0.45:
+                sc["enu"] = rng.choice([1, 2, 2, 3, 3, 4, 5, 6, 7, 9, 11])
+            elif r < 0.7:
+                sc["ene"] = rng.choice([1, 2, 2, 3, 3, 4, 5])
+            elif r < 0.9:
+                sc["ens"] = max(1, rng.choice([b, 2 * b, 3 * b, spe, spe + 1, 2 * spe - 1, 5, 7]))
+            else:
+                sc["enu"], sc["ene"] = rng.choice([3, 4, 5, 7]), rng.choice([2, 3])
+            sides.append(sc)
+        case["sides"] = sides
+        case["start"] = None
+        add_flavours(rng, case)
+        if expected_events(case) <= 3000:
+            return case
+    return case
 
 
 def expected_events(case):
@@ -557,6 +704,10 @@ def search_cases(rng, tier):
             yield gen_history_case(rng)
         elif r < 0.4:
             yield gen_boundary_case(rng)
+        elif r < 0.5:
+            yield gen_many_configs(rng)
+        elif r < 0.6:
+            yield gen_drawn_case(rng)
         else:
             yield gen_bounded(rng, size="mid" if rng.random() < 0.3 else "small")
 
@@ -645,6 +796,11 @@ def shrink(case):
         yield {**c, "main_kind": "lazy"}
     if c.get("pre_epoch") is not None and c.get("main_kind") not in ("torch", "kd"):
         yield {**c, "pre_epoch": None}
+    if c.get("main_repr") not in (None, "int"):
+        yield {**c, "main_repr": "int"}
+    for i, sc_ in enumerate(c["sides"]):
+        if sc_.get("repr") not in (None, "int"):
+            yield {**c, "sides": c["sides"][:i] + [{**sc_, "repr": "int"}] + c["sides"][i + 1:]}
     for i, sc_ in enumerate(c["sides"]):
         if sc_.get("eager"):
             yield {**c, "sides": c["sides"][:i] + [{**sc_, "eager": False}] + c["sides"][i + 1:]}
@@ -736,6 +892,7 @@ class _World:
         self.outside = []
         self.log = self.outside
         self.plog = []
+        self.src = None
 
 
 class _RecMain:
@@ -749,10 +906,18 @@ class _RecMain:
         self.data_source = _DS(0, raw["dsN"])
         self.eager = case.get("main_kind") == "eager"
         self.epoch = case.get("pre_epoch")
+        self.repr = case.get("main_repr") or "int"
+        self.kept = None
+        if self.repr == "tensor":
+            import torch
+            self.kept = torch.arange(raw["dsN"])      # the sampler's own index tensor, re-used in every epoch
         _apply_decoy(self, case.get("main_decoy"))
 
     def __len__(self):
         return self.n
+
+    def _order(self):
+        return as_repr(self.repr, main_iter(self.case, self.epoch), self.kept)
 
     def set_epoch(self, e):
         self.world.log.append(["E", e])
@@ -760,12 +925,19 @@ class _RecMain:
 
     def __iter__(self):
         self.world.log.append(["I", self.epoch])
+        if self.case.get("main_kind") == "drawn":
+            return self._drawn()
         if self.eager:
-            return iter(main_iter(self.case, self.epoch))
+            return iter(self._order())
         return self._gen()
 
     def _gen(self):
-        yield from main_iter(self.case, self.epoch)
+        yield from self._order()
+
+    def _drawn(self):
+        ds = len(self.data_source)
+        for _ in range(self.n):
+            yield self.world.src.next() % ds
 
 
 def _apply_decoy(obj, decoy):
@@ -859,6 +1031,11 @@ class _Side:
         else:
             self.dataset = ds
         self.tag, self.sc, self.p, self.world = tag, sc, p0, world
+        self.repr = sc.get("repr") or "int"
+        self.kept = None
+        if self.repr == "tensor":
+            import torch
+            self.kept = torch.tensor(list(sc["idx"]), dtype=torch.int64)   # kept and re-used on every pass
         _apply_decoy(self, sc.get("decoy"))
 
     def __len__(self):
@@ -871,7 +1048,7 @@ class _Side:
         p = self.p
         self.p += 1
         self.world.plog.append([self.tag - 1, len(self.world.log), p])
-        return side_iter(self.sc, p)
+        return as_repr(self.repr, side_iter(self.sc, p), self.kept, side_positions(self.sc, p))
 
     def __iter__(self):
         if self.sc.get("eager"):
@@ -879,6 +1056,13 @@ class _Side:
         return self._gen()
 
     def _gen(self):
+        if self.sc.get("drawn"):
+            p = self.p
+            self.p += 1
+            self.world.plog.append([self.tag - 1, len(self.world.log), p])
+            for _ in range(len(self.sc["idx"])):
+                yield self.world.src.next() % self.sc["dslen"]
+            return
         yield from self._begin()
 
 
@@ -931,6 +1115,8 @@ class _Objects:
         from kappadata.samplers.interleaved_sampler import InterleavedSamplerConfig
         self.case, self.start = case, start
         self.world = _World()
+        if case.get("drawn") is not None:
+            self.world.src = _Source(case["drawn"]["seed"])
         raw = raw_args(case, start)
         mk = case.get("main_kind")
         self.main = (_torch_main if mk == "torch" else _kd_main if mk == "kd" else _RecMain)(case, raw, self.world)
@@ -964,6 +1150,21 @@ class _Objects:
     def snapshot(self):
         return [[(id(v) if k in ("sampler", "collator") and v is not None else v)
                  for k, v in ((k, getattr(cf, k, "<deleted>")) for k in CFG_FIELDS)] for cf in self.cfgs]
+
+    def storage_mutations(self):
+        """index tensors the recording samplers keep between iterations (they yield views of them) that no longer
+        hold what they were built with"""
+        out = []
+        for name, o, want in [("main sampler", self.main, None)] + \
+                [(f"sampler of config #{i}", sm, sc["idx"]) for i, (sm, sc) in enumerate(zip(self.side_samplers, self.case["sides"]))]:
+            kept = getattr(o, "kept", None)
+            if kept is None or getattr(o, "repr", None) != "tensor":
+                continue
+            want = list(range(len(kept))) if want is None else [int(v) for v in want]
+            got = [int(v) for v in kept.tolist()]
+            if got != want:
+                out.append([name, want[:12], got[:12]])
+        return out
 
     def held(self):
         e = self.main.epoch
@@ -1140,7 +1341,7 @@ def run_stream(case, start="case", pass0=None):
         note_mutations(k)
     s = ob.samplers[0]
     out.update({"index_offsets": [int(x) for x in s.index_offsets], "result": res, "log": log, "plog": plog,
-                "hist": hist, "cfg_mutations": muts,
+                "hist": hist, "cfg_mutations": muts, "storage_mutations": ob.storage_mutations(),
                 "outside": [ev for ev in ob.world.outside][:50]})
     if res == "ok":
         # resolution of every distinct yielded index through the real concat dataset
@@ -1249,12 +1450,15 @@ def offsets(case):
     return offs
 
 
-def side_pass(case, ci, p=0):
+def side_pass(case, ci, p=0, src=None, rec=None):
     sc = case["sides"][ci]
     off = offsets(case)[ci]
     bs = sc["bs"] or case["B"]
     out = []
-    for b in chunks(side_iter(sc, p), bs):
+    order = [src.next() % sc["dslen"] for _ in sc["idx"]] if (src is not None and sc.get("drawn")) else side_iter(sc, p)
+    if rec is not None:
+        rec.setdefault("side", {}).setdefault(ci, {})[p] = list(order)
+    for b in chunks(order, bs):
         out += [["Y", False, off + i] for i in b[:-1]] + [["Y", True, off + b[-1]]]
     return out
 
@@ -1342,7 +1546,7 @@ def gen_boundary_case(rng):
     return c
 
 
-def spec_stream(case, e0, tag=False, pass0=None, pseq=None):
+def spec_stream(case, e0, tag=False, pass0=None, pseq=None, rec=None):
     """the stream an uninterrupted run shows from the beginning of epoch e0 on (side samplers iterated pass0
     times before); with tag=True every event carries 'M' (main) / config index.  pseq (iterations that are live
     at the same time as others): per config, which iteration of the shared side sampler object each pass of THIS
@@ -1350,6 +1554,8 @@ def spec_stream(case, e0, tag=False, pass0=None, pseq=None):
     bud = budgets(case)
     pn = list(pass0 or [0] * len(case["sides"]))
     pseq = [list(x) for x in pseq] if pseq is not None else None
+    # samplers drawing lazily from ONE shared source: the spec consumes the source in stream order
+    src = _Source(case["drawn"]["seed"]) if case.get("drawn") is not None else None
 
     def take(ci):
         if pseq is not None and pseq[ci]:
@@ -1359,7 +1565,7 @@ def spec_stream(case, e0, tag=False, pass0=None, pseq=None):
     if any(v == 0 for v in bud.values()):
         out = []
         for ci in range(len(case["sides"])):
-            out += [ev + [ci] if tag else ev for ev in side_pass(case, ci, take(ci))]
+            out += [ev + [ci] if tag else ev for ev in side_pass(case, ci, take(ci), src, rec)]
         return out
     spe, upe = geometry(case)
     out = []
@@ -1367,9 +1573,13 @@ def spec_stream(case, e0, tag=False, pass0=None, pseq=None):
     while True:
         out.append(["E", e, "M"] if tag else ["E", e])
         out.append(["I", e, "M"] if tag else ["I", e])       # iter(main_sampler) is called with epoch e announced
-        bs = chunks(main_iter(case, e)[:spe], case["B"])
+        bs = chunks(main_iter(case, e)[:spe] if src is None else [None] * spe, case["B"])
         done = 0
         for j, b in enumerate(bs):
+            if src is not None:
+                b = [src.next() % case["dsN"] for _ in b]      # drawn when the scheduler pulls them
+                if rec is not None:
+                    rec.setdefault("main", {}).setdefault(e, []).extend(b)
             out += [["Y", False, i] + (["M"] if tag else []) for i in b[:-1]]
             out.append(["Y", True, b[-1]] + (["M"] if tag else []))
             prev = e * spe + done
@@ -1383,7 +1593,7 @@ def spec_stream(case, e0, tag=False, pass0=None, pseq=None):
                        or (sc["enu"] is not None and update % sc["enu"] == 0)
                        or (sc["ens"] is not None and crossed(sc["ens"], prev, sample)))
                 if due:
-                    out += [ev + [ci] if tag else ev for ev in side_pass(case, ci, take(ci))]
+                    out += [ev + [ci] if tag else ev for ev in side_pass(case, ci, take(ci), src, rec)]
             if ((bud["epochs"] is not None and epoch == bud["epochs"])
                     or (bud["updates"] is not None and update == bud["updates"])
                     or (bud["samples"] is not None and sample >= bud["samples"])):
@@ -1461,6 +1671,16 @@ def config_mutation_violation(obs):
     return None
 
 
+def storage_violation(obs):
+    m = obs.get("storage_mutations")
+    if m:
+        name, want, got = m[0]
+        return (f"the {name} yields 0-d tensor views of an index tensor it keeps between iterations; the scheduler "
+                f"changed that tensor in place: it held {want} and holds {got} after the run (what a sampler yields "
+                f"belongs to the sampler; later passes draw other indices)")
+    return None
+
+
 def ds_ranges(case):
     offs = [0, case["dsN"]]
     for sc in case["sides"]:
@@ -1514,6 +1734,16 @@ Open Scope Z_scope.
 """
 
 
+def drawn_record(case):
+    """for samplers drawing from a shared source: what every iteration of every sampler object yields when the
+    source is consumed in stream order (the model takes the samplers' iterations as given)"""
+    if case.get("drawn") is None or isinstance(start_epoch_of(case), str):
+        return None
+    rec = {}
+    spec_stream(case, 0, rec=rec)
+    return rec
+
+
 def coq_args(case, obs):
     raw = raw_args(case)
     calls = [0] * len(case["sides"])
@@ -1521,8 +1751,12 @@ def coq_args(case, obs):
         calls[ci] += 1
     pass0 = obs.get("pass0") or [0] * len(case["sides"])
     sides = []
+    rec = drawn_record(case)
     for i, (sc, rs) in enumerate(zip(case["sides"], raw["sides"])):
-        if sc.get("shuffle") is None:
+        if sc.get("drawn") and rec is not None:
+            got = rec.get("side", {}).get(i, {})
+            sidx = Raw("(passes_fun " + coq([got.get(p, list(sc["idx"])) for p in range(pass0[i] + calls[i] + 2)]) + ")")
+        elif sc.get("shuffle") is None:
             sidx = Raw("(fun _ => " + coq(list(sc["idx"])) + ")")
         else:
             sidx = Raw("(passes_fun " + coq([side_iter(sc, p) for p in range(pass0[i] + calls[i] + 2)]) + ")")
@@ -1556,7 +1790,11 @@ def coq_case_common(case, obs):
     epochs = [ev[1] for ev in obs["log"] if ev[0] == "E"]
     emin = min(epochs) if epochs else 0
     emax = max(epochs) + 1 if epochs else 0
-    iters = [main_iter(case, e) for e in range(emin, emax + 1)]
+    if case.get("main_kind") == "drawn":
+        rec = drawn_record(case) or {}
+        iters = [(rec.get("main", {}).get(e, []) + [0] * case["N"])[:case["N"]] for e in range(emin, emax + 1)]
+    else:
+        iters = [main_iter(case, e) for e in range(emin, emax + 1)]
     batches = obs.get("batches")
     bat = Opt(None if not isinstance(batches, list) else batches)
     resolve = [(r[0], Nat(r[1]), r[2][1]) for r in obs.get("resolve", []) if len(r) == 3]
